@@ -193,6 +193,13 @@ class Write(Harness):
         out.append(dict(table="bed3", rows=[[1, 0, 0]], cuts=[], big_col=2, big_range=[2 ** 53 - 6, 2 ** 53 + 6], boundary_witnesses=True))
         out.append(dict(table="bed3", rows=[[1, 0, 0]], cuts=[], big_col=2, big_range=[2 ** 63 - 12, 2 ** 63 - 1], boundary_witnesses=True))
         out.append(dict(table="chromsizes", rows=[[1, 0], [2, 0]], cuts=[], big_col=1, big_range=[10 ** 17 - 6, 10 ** 17 + 6], boundary_witnesses=True))
+        # the pieces as ONE stream of chunks (chunks without entries in every position; a stream of nothing but empty chunks)
+        for tab, rows in (("bed3", T["bed3"][3]), ("vcf", T["vcf"][1]), ("fastq", T["fastq"][2]), ("vcf", []), ("bed3", [])):
+            n = len(rows)
+            cutsets = [(1,), (1, 1), (0,), (0, 0, 1), (n,), (1, n, n)] if n else [(0,), (0, 0)]
+            for cuts in cutsets:
+                if all(c <= n for c in cuts):
+                    out.append(dict(table=tab, rows=rows, cuts=list(cuts), stream=True))
         # float column (bedGraph): concrete doubles whose text takes every shape str() produces (plain decimals, negative, exponent with
         # '-' and with '+', integers-valued), symbolic integer columns; whole, in pieces, read back
         for floats in ([0.5, 2.5e-07, 1e16], [-3.25, 1e+22, 120.0], [1.5e-300, -7e+300, 0.0]):
@@ -217,11 +224,16 @@ class Write(Harness):
 
         whole = build_table(ctx, skel, x)        # ONE table object: every write below is given this object or a slice of it
 
-        def write(pieces):
+        def write(pieces, stream=False):
             f = ctx.wfile()
             w = NpBufferedWriter(f, B)
-            for rows in pieces:
-                w.write(whole if len(rows) == n else whole[(rows[0] if rows else 0):(rows[-1] + 1 if rows else 0)])
+            tables = [whole if len(rows) == n else whole[(rows[0] if rows else 0):(rows[-1] + 1 if rows else 0)] for rows in pieces]
+            if stream:       # the pieces handed to ONE write call as a stream of chunks
+                from bionumpy.streams import NpDataclassStream
+                w.write(NpDataclassStream(iter(tables), dataclass=type(whole)))
+            else:
+                for t in tables:
+                    w.write(t)
             return ctx.file_bytes(f)
         def write_appending(pieces, suffix):
             """the pieces written through bnp.open: the first with mode 'w', the others with mode 'a' (plain target or gzip target); the
@@ -258,7 +270,7 @@ class Write(Harness):
         if skel.get("append"):
             res["split"] = write_appending(partition(list(range(n)), skel["cuts"]), skel["append"])
         elif skel["cuts"]:
-            res["split"] = write(partition(list(range(n)), skel["cuts"]))
+            res["split"] = write(partition(list(range(n)), skel["cuts"]), stream=bool(skel.get("stream")))
         res["again"] = write([list(range(n))])      # the same table written once more (writing must not change the table)
         if skel.get("lazy_concat"):
             # composition through a file: what was written is read back lazily, the whole table and a selection of it are
